@@ -1161,4 +1161,3 @@ func TestC09InstallCMap(t *testing.T) {
 		stats.CaseIn("installcmap", stats.Hash(a, use12), highest >= 0, func() string { return desc }, labels...)
 	})
 }
-
